@@ -379,7 +379,7 @@ def worker(arg):
         text = script(sib, entry, uses[0][1], exts)
         o = impl.parse_outcome(text)
         col.case(key=None, nontrivial=has_param, classes=("kind:unregistered-sibling",))
-        if o.exc is None and (o.verdict is not False or "unknown command" not in (o.error or "")):
+        if o.exc is None and o.verdict is not False:
             col.fail("unregistered-sibling-not-unknown", {"definition": d, "args": uses[0][1], "kind": "sibling"},
                      {"text": text, "impl": o.summary()})
 
@@ -405,7 +405,7 @@ def replay(case):
     if case["kind"] == "sibling":
         text = script(name + "q", entry, args, exts)
         o = impl.parse_outcome(text)
-        if o.exc is None and (o.verdict is not False or "unknown command" not in (o.error or "")):
+        if o.exc is None and o.verdict is not False:
             return [("unregistered-sibling-not-unknown", {"text": text, "impl": o.summary()})]
         return []
     if case["kind"] == "missing-require":
